@@ -35,3 +35,9 @@ func (s *StateDB) VerifLeaf(addr common.Address) []byte {
 
 // VerifJournalLen returns len(journal) and len(validRevisions).
 func (s *StateDB) VerifJournalLen() (int, int) { return len(s.journal), len(s.validRevisions) }
+
+// VerifObjErr reports whether the cached object of addr has memoized a database error (stateObject.dbErr).
+func (s *StateDB) VerifObjErr(addr common.Address) bool {
+	o := s.stateObjects[addr]
+	return o != nil && o.dbErr != nil
+}
